@@ -499,6 +499,7 @@ func (p *Program) collectInlineSites(pk *packages.Package, file *ast.File, calle
 		sb.WriteString(prefix)
 		// result variables
 		var rvars, rtypes, rnames []string
+		var rgotypes []types.Type
 		if fd.Type.Results != nil {
 			i := 0
 			for _, f := range fd.Type.Results.List {
@@ -511,6 +512,7 @@ func (p *Program) collectInlineSites(pk *packages.Package, file *ast.File, calle
 					rv := fmt.Sprintf("pkoInl%dR%d", n, i)
 					rvars = append(rvars, rv)
 					rtypes = append(rtypes, tt)
+					rgotypes = append(rgotypes, pk.TypesInfo.TypeOf(f.Type))
 					if len(f.Names) > 0 {
 						rnames = append(rnames, f.Names[k].Name)
 					}
@@ -662,9 +664,14 @@ func (p *Program) collectInlineSites(pk *packages.Package, file *ast.File, calle
 				// the continuation copy uses the returned expressions directly
 				vals = nil
 				for i, e := range r.Results {
-					// converted to the declared result type: an untyped nil or constant keeps the type
-					// it would have had as a result of the helper
-					vals = append(vals, "("+rtypes[i]+")("+lineDir(e.Pos())+ctext(e.Pos(), e.End())+")")
+					v := "(" + lineDir(e.Pos()) + ctext(e.Pos(), e.End()) + ")"
+					// the returned expression takes the place of a variable of the result type: an
+					// untyped nil/constant or a value of another (assignable) type is converted to it,
+					// as the return statement did
+					if et := pk.TypesInfo.TypeOf(e); et == nil || rgotypes[i] == nil || !types.Identical(et, rgotypes[i]) {
+						v = "((" + rtypes[i] + ")" + v + ")"
+					}
+					vals = append(vals, v)
 				}
 			case dupTail && len(r.Results) == 1 && len(rvars) > 1:
 				vals = []string{lineDir(r.Results[0].Pos()) + ctext(r.Results[0].Pos(), r.Results[0].End())}
@@ -690,7 +697,12 @@ func (p *Program) collectInlineSites(pk *packages.Package, file *ast.File, calle
 				if replEnd < st.End() {
 					sb.WriteString(text(replEnd, st.End()))
 				}
-				if len(rest) > 0 {
+				if folded, ok := p.foldLeadingNilTest(pk, st, call, rest, r, len(rvars), dupEnd, text, lineDir); ok {
+					// the continuation starts with a nil test of a result whose returned expression is
+					// statically nil / non-nil: only the branch this return takes is copied (the code as
+					// it was before the helper was extracted — no infeasible fall-through)
+					sb.WriteString(folded)
+				} else if len(rest) > 0 {
 					sb.WriteString("\n" + lineDir(rest[0].Pos()))
 					sb.WriteString(text(rest[0].Pos(), dupEnd))
 				}
@@ -1124,4 +1136,130 @@ func (p *Program) callsUnrecorded(fn *ssa.Function, recorded map[string]anchorFP
 		return true
 	}
 	return false
+}
+
+// staticNilness: the expression is the predeclared nil (1), or can never be nil — the address of a
+// composite literal, fmt.Errorf(…), errors.New(…) — (2); 0 = not decided.
+func staticNilness(pk *packages.Package, e ast.Expr) int {
+	e = ast.Unparen(e)
+	if tv, ok := pk.TypesInfo.Types[e]; ok && tv.IsNil() {
+		return 1
+	}
+	switch x := e.(type) {
+	case *ast.UnaryExpr:
+		if x.Op == token.AND {
+			if _, isLit := ast.Unparen(x.X).(*ast.CompositeLit); isLit {
+				return 2
+			}
+		}
+	case *ast.CallExpr:
+		var id *ast.Ident
+		switch f := ast.Unparen(x.Fun).(type) {
+		case *ast.SelectorExpr:
+			id = f.Sel
+		case *ast.Ident:
+			id = f
+		}
+		if id != nil {
+			if fn, ok := pk.TypesInfo.Uses[id].(*types.Func); ok && fn.Pkg() != nil {
+				switch fn.Pkg().Path() + "." + fn.Name() {
+				case "fmt.Errorf", "errors.New":
+					return 2
+				}
+			}
+		}
+	}
+	return 0
+}
+
+// foldLeadingNilTest: st is `a, b := helper(…)` (or `=`), the first statement of the continuation is
+// `if b != nil {…}` / `if b == nil {…} [else …]` on one of the variables st assigns, and the helper
+// return r gives that variable an expression that is statically nil or non-nil. Returns the
+// continuation for this return with the test decided: the taken branch, followed by the remaining
+// statements unless that branch ends in a jump. (Without this the copy keeps a branch that the
+// return can never take, and every path-based rule sees a path that does not exist.)
+func (p *Program) foldLeadingNilTest(pk *packages.Package, st ast.Stmt, call *ast.CallExpr, rest []ast.Stmt, r *ast.ReturnStmt,
+	nres int, dupEnd token.Pos, text func(a, b token.Pos) string, lineDir func(token.Pos) string) (string, bool) {
+	as, ok := st.(*ast.AssignStmt)
+	if !ok || len(as.Rhs) != 1 || ast.Unparen(as.Rhs[0]) != ast.Expr(call) || len(as.Lhs) != nres || len(r.Results) != nres || len(rest) == 0 {
+		return "", false
+	}
+	if as.Tok != token.DEFINE && as.Tok != token.ASSIGN {
+		return "", false
+	}
+	ifs, ok := rest[0].(*ast.IfStmt)
+	if !ok || ifs.Init != nil {
+		return "", false
+	}
+	be, ok := ast.Unparen(ifs.Cond).(*ast.BinaryExpr)
+	if !ok || (be.Op != token.NEQ && be.Op != token.EQL) {
+		return "", false
+	}
+	x, y := ast.Unparen(be.X), ast.Unparen(be.Y)
+	if tv, isNil := pk.TypesInfo.Types[x]; isNil && tv.IsNil() {
+		x, y = y, x
+	}
+	if tv, ok := pk.TypesInfo.Types[y]; !ok || !tv.IsNil() {
+		return "", false
+	}
+	xid, ok := x.(*ast.Ident)
+	if !ok || xid.Name == "_" {
+		return "", false
+	}
+	objOf := func(id *ast.Ident) types.Object {
+		if o := pk.TypesInfo.Defs[id]; o != nil {
+			return o
+		}
+		return pk.TypesInfo.Uses[id]
+	}
+	k := -1
+	var names []string
+	for i, l := range as.Lhs {
+		lid, isID := ast.Unparen(l).(*ast.Ident)
+		if !isID {
+			return "", false
+		}
+		if lid.Name != "_" {
+			names = append(names, lid.Name)
+		}
+		if lid.Name == xid.Name && objOf(lid) != nil && objOf(lid) == objOf(xid) {
+			k = i
+		}
+	}
+	if k < 0 {
+		return "", false
+	}
+	nilness := staticNilness(pk, r.Results[k])
+	if nilness == 0 {
+		return "", false
+	}
+	taken := (be.Op == token.NEQ) == (nilness == 2)
+	var sb strings.Builder
+	// the assigned variables may have been used by the dropped test only
+	for _, n := range names {
+		sb.WriteString("\n_ = " + n)
+	}
+	terminated := false
+	if taken {
+		sb.WriteString("\n{" + lineDir(ifs.Body.Lbrace+1) + text(ifs.Body.Lbrace+1, ifs.Body.Rbrace) + "}")
+		if n := len(ifs.Body.List); n > 0 {
+			switch l := ifs.Body.List[n-1].(type) {
+			case *ast.ReturnStmt, *ast.BranchStmt:
+				terminated = true
+			case *ast.ExprStmt:
+				if c, isCall := l.X.(*ast.CallExpr); isCall {
+					if id, isID := c.Fun.(*ast.Ident); isID && id.Name == "panic" && pk.TypesInfo.Uses[id] == types.Universe.Lookup("panic") {
+						terminated = true
+					}
+				}
+			}
+		}
+	} else if ifs.Else != nil {
+		// else block / else-if chain, as a statement of its own
+		sb.WriteString("\n" + lineDir(ifs.Else.Pos()) + text(ifs.Else.Pos(), ifs.Else.End()))
+	}
+	if !terminated && len(rest) > 1 {
+		sb.WriteString("\n" + lineDir(rest[1].Pos()) + text(rest[1].Pos(), dupEnd))
+	}
+	return sb.String(), true
 }
